@@ -473,7 +473,7 @@ def run(repo: Repo, rep: Report, tier: str) -> None:
     n_cons = consumers(repo, rep)
     n_sites = decoder_sites(repo, rep)
     rep.floor("soft-demodulator returns decided (producers)", n_prod, 9)
-    rep.floor("thresholder / utility consumer returns", n_cons, 14)
+    rep.floor("thresholder / utility consumer returns", n_cons, 10)
     rep.floor("decoder decision sites", n_sites, 9)
     rep.decided_clauses += [
         "producers: LLR decreasing in dist to bit-0 subset, increasing in dist to bit-1 subset (closed form: increasing in the amplitude that carries bit 0)",
